@@ -88,7 +88,7 @@ func (g *TxGen) Next(sm *fsm.StateMachine) ([]byte, string) {
 		fallthrough
 	case kind < 50:
 		if exists && val.UnstakingHeight == 0 {
-			return mk("edit-stake")(fsm.NewEditStakeTx(k.Priv, addr, crypto.NewAddress(val.Output), val.NetAddress, val.Committees, val.StakedAmount+g.R.Pick(0, 1, 500, 5000), 1, 1, g.Fee, h, g.R.Bool(), g.memo()))
+			return mk("edit-stake")(fsm.NewEditStakeTx(k.Priv, addr, crypto.NewAddress(val.Output), val.NetAddress, val.Committees, editAmount(g.R, val.StakedAmount), 1, 1, g.Fee, h, g.R.Bool(), g.memo()))
 		}
 		fallthrough
 	case kind < 57:
@@ -189,4 +189,27 @@ func (g *TxGen) Next(sm *fsm.StateMachine) ([]byte, string) {
 			return mk("invalid:tampered-after-signing")(tx, err)
 		}
 	}
+}
+
+// editAmount: the amount of an edit-stake: the current stake, more, or LESS (accepted by the handler - "to avoid race conditions
+// due to auto-compounding" - as an edit that adds nothing: the stake must stay what it is)
+func editAmount(r *Rng, stake uint64) uint64 {
+	switch r.Intn(6) {
+	case 0:
+		if stake > 1 {
+			return stake - 1 - uint64(r.Intn(int(min64u(stake-1, 1000))))
+		}
+	case 1:
+		if stake > 2 {
+			return stake / 2
+		}
+	}
+	return stake + r.Pick(0, 0, 1, 500, 5000)
+}
+
+func min64u(a, b uint64) uint64 {
+	if a < b {
+		return a
+	}
+	return b
 }
